@@ -12,6 +12,7 @@ import (
 	"encoding/binary"
 	"encoding/json"
 	"fmt"
+	"hash/crc32"
 	"io"
 	"os"
 	"os/exec"
@@ -79,12 +80,16 @@ type Result struct {
 	Pack     [5]int   `json:"pack"`  // ctime, cdate, adate, mtime, mdate words of PROBE.TXT's directory entry (-1: not found)
 	Wlist    string   `json:"wlist"` // create's WriteAt list, offsets relative to start: off:len,...
 	WSha     string   `json:"wsha"`  // SHA-256 over the create write list (relative offsets and data)
+	WCrc     string   `json:"wcrc"`  // create's WriteAt list with a CRC32 of each write's data: off:len:crc,...
 	GPTHash  string   `json:"gpth"`  // device hash after writing the GPT
 	GPT2     bool     `json:"gpt2"`  // a second write on a fresh device gave identical bytes
 	GPTRW    string   `json:"gptrw"` // "" or what changed when the table read from disk was written back
 	MBRHash  string   `json:"mbrh"`
 	MBR2     bool     `json:"mbr2"`
 	MBRRW    string   `json:"mbrrw"`
+	MBRSec   string   `json:"mbrsec"` // sector 0 (hex) as mbr.Read saw it before the rewrite
+	MBRWs    string   `json:"mbrws"`  // WriteAt log of the rewrite: off:hex;...
+	MBRLP    [2]int   `json:"mbrlp"`  // sector sizes of the table read back
 	Err      string   `json:"err"`
 	Panic    string   `json:"panic"`
 	Epoch    string   `json:"epoch"`
@@ -193,8 +198,8 @@ func findEntryWords(dev *memdev.Dev, start int64, name11 string) [5]int {
 	return res
 }
 
-func wlist(dev *memdev.Dev, start int64) (string, string) {
-	var sb strings.Builder
+func wlist(dev *memdev.Dev, start int64) (string, string, string) {
+	var sb, sc strings.Builder
 	hs := newSha()
 	first := true
 	for _, e := range dev.Log {
@@ -203,13 +208,24 @@ func wlist(dev *memdev.Dev, start int64) (string, string) {
 		}
 		if !first {
 			sb.WriteByte(',')
+			sc.WriteByte(',')
 		}
 		first = false
 		fmt.Fprintf(&sb, "%d:%d", e.Off-start, e.Len)
+		fmt.Fprintf(&sc, "%d:%d:%d", e.Off-start, e.Len, crc32.ChecksumIEEE(e.Data))
 		fmt.Fprintf(hs, "%d:%d:", e.Off-start, e.Len)
 		hs.Write(e.Data)
 	}
-	return sb.String(), hs.hex()
+	return sb.String(), hs.hex(), sc.String()
+}
+
+// label11 is the 11 bytes SetLabel stores for a label ("" = NO NAME; left-justified, blank padded, cut at 11).
+func label11(s string) []byte {
+	if s == "" {
+		s = "NO NAME"
+	}
+	b := []byte(fmt.Sprintf("%-11.11s", s))
+	return b
 }
 
 func runChild(specPath string) {
@@ -243,7 +259,7 @@ func runChild(specPath string) {
 			res.Err = "create: " + err.Error()
 		} else {
 			if s.Mode != "disk" {
-				res.Wlist, res.WSha = wlist(dev, start)
+				res.Wlist, res.WSha, res.WCrc = wlist(dev, start)
 			}
 			for _, o := range s.Ops {
 				func() {
@@ -315,12 +331,24 @@ func runChild(specPath string) {
 			res.MBRHash = d1.Hash(0, sz)
 			res.MBR2 = res.MBRHash == d2.Hash(0, sz)
 			rt, err := mbr.Read(d1, 512, 512)
+			res.MBRSec = hx.Hex(d1.Bytes(0, 512))
+			d1.ResetLog()
 			if err != nil {
 				res.MBRRW = "read back failed: " + err.Error()
 			} else if err := rt.Write(d1, sz); err != nil {
 				res.MBRRW = "rewrite failed: " + err.Error()
 			} else if off := memdev.DiffOutside(d1, d2, 0, 0); off >= 0 {
 				res.MBRRW = fmt.Sprintf("byte %d differs after read+write", off)
+			}
+			if err == nil {
+				res.MBRLP = [2]int{rt.LogicalSectorSize, rt.PhysicalSectorSize}
+				var ws []string
+				for _, e := range d1.Log {
+					if !e.Sync {
+						ws = append(ws, fmt.Sprintf("%d:%s", e.Off, hx.Hex(e.Data)))
+					}
+				}
+				res.MBRWs = strings.Join(ws, ";")
 			}
 		}
 	}
@@ -610,9 +638,18 @@ func judgeJob(c *hx.Ctx, j *job) {
 				c.Impl(j.id+"/pack", fmt.Sprintf("ctime=%d", a.Pack[0]), fmt.Sprintf("cdate=%d", a.Pack[1]), fmt.Sprintf("adate=%d", a.Pack[2]),
 					fmt.Sprintf("mtime=%d", a.Pack[3]), fmt.Sprintf("mdate=%d", a.Pack[4]))
 			}
-			if j.a.Mode == "direct" && j.a.Kind != "fat32" {
+			if j.a.Mode == "direct" {
 				c.Case(j.id+"/create", "repro.create", "kind="+j.a.Kind, fmt.Sprintf("size=%d", j.a.Size))
 				c.Impl(j.id+"/create", "ws="+a.Wlist)
+				// the whole image: every byte Create wrote (CRC32 per WriteAt) against the model's image
+				// function of (kind, size, label, epoch) - from BOTH runs (different start, time, TZ)
+				c.Case(j.id+"/image", "repro.image", "kind="+j.a.Kind, fmt.Sprintf("size=%d", j.a.Size),
+					"label="+hx.Hex(label11(j.a.Label)), fmt.Sprintf("epoch=%d", j.epoch))
+				c.Impl(j.id+"/image", "ws="+a.WCrc)
+				c.Case(j.id+"/imageB", "repro.image", "kind="+j.a.Kind, fmt.Sprintf("size=%d", j.a.Size),
+					"label="+hx.Hex(label11(j.a.Label)), fmt.Sprintf("epoch=%d", j.epoch))
+				c.Impl(j.id+"/imageB", "ws="+b.WCrc)
+				c.Stat("image-tied." + j.a.Kind)
 			}
 		}
 	}
@@ -637,6 +674,15 @@ func judgeJob(c *hx.Ctx, j *job) {
 		}
 		if a.MBRHash != b.MBRHash {
 			probs = append(probs, "MBR bytes differ between the two processes")
+		}
+		if a.MBRSec != "" && a.MBRWs != "" {
+			// correspondence with the Table-level model: Read, then Write of what was read (theorem mbr_table_rewrite_idempotent)
+			same := "1"
+			if a.MBRRW != "" {
+				same = "0"
+			}
+			c.Case(j.id+"/mbrrw", "repro.mbrrw", "sec="+a.MBRSec, fmt.Sprintf("size=%d", 8*MB), "lbs=512", "pbs=512")
+			c.Impl(j.id+"/mbrrw", "res=ok", fmt.Sprintf("lss=%d", a.MBRLP[0]), fmt.Sprintf("pss=%d", a.MBRLP[1]), "ws="+a.MBRWs, "same="+same)
 		}
 		c.Stat("tables.mbr")
 	}
